@@ -621,7 +621,7 @@ theorem set_extension_valid (e : Enc) (b x : Bytes) (hv : Valid b) (hx : Valid x
   cases hf : fileName e b with
   | none => rw [C13.set_ext_false e b x hf]; exact hv
   | some f =>
-    obtain ⟨r, j, st, hts, hstem, hset⟩ := C13.set_ext_tokens e b x f hf
+    obtain ⟨r, j, st, hts, _, hstem, hset⟩ := C13.set_ext_tokens e b x f hf
     rw [hset]
     have hnew := new_valid e b hv
     have hr : Valid (untoks r) := untoks_valid r (fun t ht => hnew.2 t (by rw [hts]; simp [ht]))
